@@ -211,6 +211,11 @@ func (a *AggregatePlan) prepare(ctx *ExecuteCtx) error {
 
 func (a *AggregatePlan) prepareBatch(ctx *ExecuteCtx) error {
 	for {
+		// What the chunk caches hold belongs to an earlier chunk (a run that
+		// ended with an error leaves its entries behind)
+		if ctx != nil {
+			ctx.Clear()
+		}
 		kvps, err := a.ChildPlan.Batch(ctx)
 		if err != nil {
 			return err
